@@ -372,4 +372,12 @@ def run_property(prop, spec, tier, seed, replay=None):
             print('  ' + how[:600])
     if not violations:
         shutil.rmtree(work, ignore_errors=True)
+    else:   # keep the logs of a failing run, drop the bulky parts
+        for d in glob.glob(os.path.join(work, 'corpus-*')):
+            shutil.rmtree(d, ignore_errors=True)
+        for f in glob.glob(os.path.join(work, 'hash-*.bin')) + glob.glob(os.path.join(work, 'journal-*')):
+            try:
+                os.remove(f)
+            except OSError:
+                pass
     return 1 if violations else 0
